@@ -10,6 +10,8 @@ construction (for the analyses: value, control flow, aliasing and effects are un
   I  conditional expressions at statement level become if/else statements
   P  aliases (`fd = self.fd`, `cached = d[k]`) are replaced by what they stand for, and a
      temporary that is assigned once and used once in the next statement is inlined
+  T  `a, b = x, y` becomes two assignments;  `for i in range(len(X)): v = X[i]` becomes
+     `for i, v in enumerate(X)`;  `if not c: A else: B` becomes `if c: B else: A`
   G  a guard `if c: ...; return|continue|break` followed by more statements becomes
      `if c: ... else: <rest>`;  `if c: continue|pass else: B` becomes `if not c: B` with the
      negation pushed inwards
@@ -114,9 +116,186 @@ def _append_to_aug(st):
     return None
 
 
+def _split_tuple_assign(st):
+    """a, b = x, y  (no target name read on the right)  ->  a = x ; b = y"""
+    if isinstance(st, ast.Assign) and len(st.targets) == 1 \
+            and isinstance(st.targets[0], ast.Tuple) and isinstance(st.value, ast.Tuple) \
+            and len(st.targets[0].elts) == len(st.value.elts) \
+            and all(isinstance(t, ast.Name) for t in st.targets[0].elts):
+        tnames = {t.id for t in st.targets[0].elts}
+        rnames = {x.id for x in ast.walk(st.value) if isinstance(x, ast.Name)}
+        if not (tnames & rnames) and len(tnames) == len(st.targets[0].elts):
+            return [ast.copy_location(ast.Assign(targets=[t], value=v), st)
+                    for t, v in zip(st.targets[0].elts, st.value.elts)]
+    return None
+
+
+def _range_len_to_enumerate(st):
+    """for i in range(len(X)): v = X[i]; ...   ->   for i, v in enumerate(X): ..."""
+    if not (isinstance(st, ast.For) and isinstance(st.target, ast.Name) and not st.orelse
+            and isinstance(st.iter, ast.Call) and _unparse(st.iter.func) == "range"
+            and len(st.iter.args) == 1 and isinstance(st.iter.args[0], ast.Call)
+            and _unparse(st.iter.args[0].func) == "len" and len(st.iter.args[0].args) == 1
+            and isinstance(st.iter.args[0].args[0], ast.Name) and st.body):
+        return None
+    i, X = st.target.id, st.iter.args[0].args[0].id
+    first = st.body[0]
+    if not (isinstance(first, ast.Assign) and len(first.targets) == 1
+            and isinstance(first.targets[0], ast.Name)
+            and _unparse(first.value) == f"{X}[{i}]"):
+        return None
+    v = first.targets[0].id
+    # the sequence is not rebound in the loop (the element is read before anything else in the
+    # body, so rebinding the index or the element name later in the body changes nothing)
+    for n in ast.walk(st):
+        if isinstance(n, ast.Name) and isinstance(n.ctx, ast.Store) and n.id == X:
+            return None
+    if v == i or v == X:
+        return None
+    tgt = ast.Tuple(elts=[ast.Name(id=i, ctx=ast.Store()), ast.Name(id=v, ctx=ast.Store())],
+                    ctx=ast.Store())
+    it = ast.Call(func=ast.Name(id="enumerate", ctx=ast.Load()),
+                  args=[ast.Name(id=X, ctx=ast.Load())], keywords=[])
+    new = ast.For(target=ast.copy_location(tgt, st.target), iter=ast.copy_location(it, st.iter),
+                  body=st.body[1:] or [ast.copy_location(ast.Pass(), st)], orelse=[])
+    new = ast.copy_location(new, st)
+    ast.fix_missing_locations(new)
+    return new
+
+
+def _unpack_loop_var(st):
+    """for t in X: a, b = t; ...   ->   for a, b in X: ...  (other reads of t become (a, b))"""
+    if not (isinstance(st, ast.For) and isinstance(st.target, ast.Name) and st.body):
+        return None
+    first = st.body[0]
+    t = st.target.id
+    if not (isinstance(first, ast.Assign) and len(first.targets) == 1
+            and isinstance(first.targets[0], ast.Tuple)
+            and all(isinstance(e, ast.Name) for e in first.targets[0].elts)
+            and isinstance(first.value, ast.Name) and first.value.id == t):
+        return None
+    names = [e.id for e in first.targets[0].elts]
+    for n in ast.walk(st):
+        if isinstance(n, ast.Name) and isinstance(n.ctx, ast.Store) and \
+                (n.id == t and n is not st.target or
+                 (n.id in names and n not in first.targets[0].elts)):
+            return None
+
+    class R(ast.NodeTransformer):
+        def visit_Name(self, n):
+            if n.id == t and isinstance(n.ctx, ast.Load):
+                return ast.copy_location(ast.Tuple(
+                    elts=[ast.Name(id=x, ctx=ast.Load()) for x in names], ctx=ast.Load()), n)
+            return n
+    body = [R().visit(x) for x in st.body[1:]] or [ast.copy_location(ast.Pass(), st)]
+    tgt = ast.Tuple(elts=[ast.Name(id=x, ctx=ast.Store()) for x in names], ctx=ast.Store())
+    new = ast.For(target=ast.copy_location(tgt, st.target), iter=st.iter, body=body,
+                  orelse=st.orelse)
+    new = ast.copy_location(new, st)
+    ast.fix_missing_locations(new)
+    return new
+
+
+def _strip_keys(e):
+    """X.keys() / list(X.keys())  ->  X   (as an iterable or a membership container)"""
+    if isinstance(e, ast.Call) and _unparse(e.func) in ("list", "tuple") and len(e.args) == 1 \
+            and not e.keywords and isinstance(e.args[0], ast.Call) \
+            and isinstance(e.args[0].func, ast.Attribute) and e.args[0].func.attr == "keys" \
+            and not e.args[0].args:
+        return e.args[0].func.value
+    if isinstance(e, ast.Call) and isinstance(e.func, ast.Attribute) and e.func.attr == "keys" \
+            and not e.args and not e.keywords:
+        return e.func.value
+    return e
+
+
+class _KeysNorm(ast.NodeTransformer):
+    """iteration over / membership in  d.keys()  is iteration over / membership in  d"""
+
+    def visit_Compare(self, node):
+        self.generic_visit(node)
+        if len(node.ops) == 1 and isinstance(node.ops[0], (ast.In, ast.NotIn)):
+            node.comparators = [_strip_keys(node.comparators[0])]
+        return node
+
+    def visit_For(self, node):
+        self.generic_visit(node)
+        if isinstance(node.iter, ast.Call) and isinstance(node.iter.func, ast.Attribute) \
+                and node.iter.func.attr == "keys" and not node.iter.args:
+            node.iter = node.iter.func.value
+        return node
+
+    def visit_comprehension(self, node):
+        self.generic_visit(node)
+        if isinstance(node.iter, ast.Call) and isinstance(node.iter.func, ast.Attribute) \
+                and node.iter.func.attr == "keys" and not node.iter.args:
+            node.iter = node.iter.func.value
+        return node
+
+
+def _items_to_keys(st):
+    """for k, v in D.items(): ...   ->   for k in D: ... with v read as D[k]"""
+    if not (isinstance(st, ast.For) and isinstance(st.target, ast.Tuple)
+            and len(st.target.elts) == 2 and all(isinstance(e, ast.Name)
+                                                  for e in st.target.elts)
+            and isinstance(st.iter, ast.Call) and isinstance(st.iter.func, ast.Attribute)
+            and st.iter.func.attr == "items" and not st.iter.args
+            and _alias_expr(st.iter.func.value)):
+        return None
+    k, v = st.target.elts[0].id, st.target.elts[1].id
+    D = st.iter.func.value
+    dnames = {x.id for x in ast.walk(D) if isinstance(x, ast.Name)}
+    for n in ast.walk(st):
+        if isinstance(n, ast.Name) and isinstance(n.ctx, ast.Store) \
+                and n not in st.target.elts and (n.id in (k, v) or n.id in dnames):
+            return None
+    # a store through D inside the loop could change what D[k] is
+    for n in ast.walk(st):
+        tg = n.targets if isinstance(n, ast.Assign) else (
+            [n.target] if isinstance(n, ast.AugAssign) else [])
+        for t in tg:
+            if isinstance(t, ast.Subscript) and _unparse(t.value) == _unparse(D):
+                return None
+
+    class R(ast.NodeTransformer):
+        def visit_Name(self, n):
+            if n.id == v and isinstance(n.ctx, ast.Load):
+                sub = ast.Subscript(value=copy.deepcopy(D),
+                                    slice=ast.Name(id=k, ctx=ast.Load()), ctx=ast.Load())
+                return ast.copy_location(sub, n)
+            return n
+    body = [R().visit(x) for x in st.body]
+    new = ast.For(target=ast.copy_location(ast.Name(id=k, ctx=ast.Store()), st.target),
+                  iter=copy.deepcopy(D), body=body, orelse=st.orelse)
+    new = ast.copy_location(new, st)
+    ast.fix_missing_locations(new)
+    return new
+
+
+def _is_negative(test):
+    if isinstance(test, ast.UnaryOp) and isinstance(test.op, ast.Not):
+        return True
+    return isinstance(test, ast.Compare) and len(test.ops) == 1 \
+        and isinstance(test.ops[0], (ast.NotIn, ast.IsNot, ast.NotEq))
+
+
 def canon_block(block, in_loop=False, is_loop_body=False):
     out = []
+    expanded = []
     for st in block:
+        parts = _split_tuple_assign(st)
+        expanded.extend(parts if parts else [st])
+    block = expanded
+    for st in block:
+        r = _range_len_to_enumerate(st)
+        if r is not None:
+            st = r
+        r = _unpack_loop_var(st)
+        if r is not None:
+            st = r
+        r = _items_to_keys(st)
+        if r is not None:
+            st = r
         r = _ifexp_split(st)
         if r is not None:
             st = r
@@ -133,6 +312,9 @@ def canon_block(block, in_loop=False, is_loop_body=False):
         elif isinstance(st, ast.If):
             st.body = canon_block(st.body, in_loop)
             st.orelse = canon_block(st.orelse, in_loop)
+            if st.orelse and _is_negative(st.test) and not (
+                    len(st.orelse) == 1 and isinstance(st.orelse[0], ast.If)):
+                st.test, st.body, st.orelse = negate(st.test), st.orelse, st.body
         elif isinstance(st, ast.With):
             st.body = canon_block(st.body, in_loop)
         elif isinstance(st, ast.Try):
@@ -597,7 +779,9 @@ def propagate(fn):
                 if a is holder:
                     break
                 if isinstance(a, (ast.For, ast.While)) and a not in def_loops and not alias:
-                    okloops = False
+                    # (the iterable of a for statement is evaluated once, like the definition)
+                    if not (isinstance(a, ast.For) and any(u is x for x in ast.walk(a.iter))):
+                        okloops = False
                 if isinstance(a, (ast.ListComp, ast.GeneratorExp, ast.SetComp, ast.DictComp)) \
                         and not alias:
                     okloops = False
@@ -668,6 +852,7 @@ def canonicalise(tree, sigs=None):
     if sigs:
         tree = _KwToPos(sigs).visit(tree)
     _Inliner(tree).run()
+    tree = _KeysNorm().visit(tree)
     tree.body = canon_block(tree.body)
     ast.fix_missing_locations(tree)
     propagate_all(tree)
